@@ -214,6 +214,24 @@ PROPS["C11"] = {
     ],
 }
 
+PROPS["C18"] = {
+    "engine": "rwsim",
+    "level": "exploration",
+    "quick_runs": 3000,
+    "thorough_runs": 60000,
+    "quick_wall": 240,
+    "thorough_wall": 2400,
+    "params": {"retarget_p": 0.9, "fwd_p": 0.5, "cfi_p": 0.3, "insfn_p": 0.0, "isa_weights": [70, 30, 0]},
+    "rule": "seeded scenarios whose sessions contain retarget_symbol_uses requests (A/B internal or external in every "
+    "combination, chains, several at once) inside edit histories, PIE and non-PIE, x86-64 ELF/PE and ARM64; the listing model "
+    "rewrites every mention of A (code operands, data words) with the independently written attribute-conversion table, CFI "
+    "personality/LSDA and symbolForwarding mentions are compared before/after, and the CFG is judged by the per-instruction "
+    "rule with the retargeted operands; distinct = (module, sessions) digest; non-trivial = at least one retarget of a symbol "
+    "that is used",
+    "real_vs_stub": RW_REAL,
+    "assumptions": ["avoided by construction: retargeting a symbol that occurs in a sym-sym expression or under overlapping blocks (NotImplementedError / AmbiguousIRError are documented)"],
+}
+
 # (moved below)
 # engines built separately contribute their own entries
 import importlib as _il
